@@ -6,6 +6,8 @@ import CCVerif.Lemmas.EvalExamples8
 import CCVerif.Lemmas.EvalExamples7n
 import CCVerif.Lemmas.EvalFuelTop
 import CCVerif.Lemmas.EvalFuelNorm
+import CCVerif.Lemmas.EvalFuelLoopsTop
+import CCVerif.Lemmas.EvalFuelNormBound
 /-!
 # C02 — type soundness of checker + evaluator
 
@@ -786,5 +788,117 @@ example : ∀ fuel, 7 ≤ fuel → (evaluate fuel Examples.envS Examples.e3).1 =
     have : fuelBound 7 Examples.e3 = 7 := by decide
     omega)
   rw [h]; decide
+
+/-! ## the fuel of the model, part 2: `R{}`, `I{}`, filters; a closed bound for the normaliser (`Lemmas/EvalFuelLoops*.lean`,
+`Lemmas/EvalFuelNormBound.lean`)
+
+The loops of `R{}` / `I{}` carry the bound `MAX_ITERATIONS + 2` of their own.  A visit never decreases the iteration counter
+(`Adv`), every round adds one, and a round beyond `MAX_ITERATIONS` ends with the documented error `iterationsLimit`: the
+bound is never what stops them (`recLoop_adv`, `impLoop_adv`).  A filter evaluates its children and runs no loop of its own.
+What remains excluded are the two constructs with a materialisation limit of the MODEL, `ℬ` and `×` (`matFree`). -/
+
+/-- **evaluate_fuel_sufficient_partial2**: `eagerFree` relaxed to `matFree` - the normalised tree may contain `R{}`, `I{}` and
+filters, only `ℬ` and `×` are excluded: the outcome from `fuelBound f0 n` on is not `outOfFuel` (every expression - typed or
+not - every environment) -/
+theorem evaluate_fuel_sufficient_partial2 (env : Env) (e n : Ast) (f0 : Nat) (hn : normalizeTree env.funcs f0 e = some n)
+    (he : matFree n = true) (fuel : Nat) (hf : fuelBound f0 n ≤ fuel) : (evaluate fuel env e).1 ≠ .outOfFuel :=
+  evaluate_fuel_sufficient2' hn he fuel hf
+
+/-- the hypothesis of `evaluate_fuel_sufficient_partial` is a special case -/
+theorem eagerFree_sub_matFree (n : Ast) (h : eagerFree n = true) : matFree n = true := eagerFree_matFree n h
+
+/-- the iteration counter the interpreter reports never decreases during a visit, and a visit of a `matFree` tree is never
+cut short by the model: the invariant behind `evaluate_fuel_sufficient_partial2`, for every context, parent and state -/
+theorem ev_counter_monotone (c : Ctx) (fuel : Nat) (a : Ast) (p : Option Tok) (st : St) (he : matFree a = true)
+    (hf : evDepth a ≤ fuel) :
+    (∀ k, ev c fuel a p st ≠ .fail .outOfFuel k) ∧ ∀ v st', ev c fuel a p st = .ok v st' → st.iters ≤ st'.iters :=
+  ev_fuel_sufficient2 c fuel a p st he hf
+
+/-- names of the functions called in a tree -/
+def calledIn : Ast → List String
+  | .node tk _ _ _ ks =>
+    (if tk == .NT_FUNC_CALL then [match ks with | k :: _ => textOf k | [] => ""] else []) ++ go ks
+where
+  go : List Ast → List String
+    | [] => []
+    | k :: ks => calledIn k ++ go ks
+
+/-- the function context is acyclic: under some rank a definition only calls definitions of smaller rank -/
+def FuncsAcyclic (fs : Funcs) : Prop :=
+  ∃ rank : String → Nat, ∀ f tree, lookup f fs = some tree → ∀ g ∈ calledIn tree, lookup g fs ≠ none → rank g < rank f
+
+/-- **full statement** (open): a closed fuel bound for the normaliser on EVERY tree over an acyclic function context
+(enumerated declarations, tuple patterns, call inlining) -/
+def normalize_fuel_sufficient_statement : Prop :=
+  ∃ bound : Funcs → Ast → Nat, ∀ (fs : Funcs) (e : Ast), FuncsAcyclic fs → ∀ fuel, bound fs e ≤ fuel → normalizeTree fs fuel e ≠ none
+
+/-- **normalize_fuel_sufficient_partial**: the part without rewriting - no tuple pattern, no enumerated declaration, no call
+anywhere in `e` (`inert`; nothing else is asked: any arity, any nesting, typed or not, any function context): from the closed
+bound `normFuel e = evDepth e` on, `SyntaxTree::Normalize` answers, and its answer is `e` itself -/
+theorem normalize_fuel_sufficient_partial (fs : Funcs) (e : Ast) (h : inert e = true) (fuel : Nat) (hf : normFuel e ≤ fuel) :
+    normalizeTree fs fuel e = some e :=
+  normalizeTree_inert fs e h fuel hf
+
+private theorem total_of2 {Typed : Env → Ast → ExprTy → Prop} (hs : progress_preservation_statement Typed)
+    {env : Env} {e n : Ast} {τ : ExprTy} {f0 : Nat} (ht : Typed env e τ) (hn : normalizeTree env.funcs f0 e = some n)
+    (he : matFree n = true) (fuel : Nat) (hf : fuelBound f0 n ≤ fuel) :
+    SoundTotal (evaluate fuel env e).1 τ ∧ evaluate fuel env e = evaluate (fuelBound f0 n) env e :=
+  ⟨soundTotal_of (hs env e τ ht fuel) (evaluate_fuel_sufficient2' hn he fuel hf), evaluate_fuel_stable' hn fuel _ hf (Nat.le_refl _)⟩
+
+/-- **progress_preservation_total_partial8**: stage 8 (stages 1-6 with `R{}`, `I{}`, and filters) on expressions without
+patterns / enumerated declarations (`inert`: the normaliser is covered by the CLOSED bound, no per-expression hypothesis) and
+without `ℬ` / `×` (`matFree`): from the fuel `evDepth e` on the outcome is a value of the type of the expression, a truth value
+exactly for LOGIC, or a documented error (`iterationsLimit` among them) - never `outOfFuel`, never `stuck` - and it is the same
+at every such fuel. -/
+theorem progress_preservation_total_partial8 :
+    progress_preservation_total_statement (fun env e τ => Typed8 env e τ ∧ inert e = true ∧ matFree e = true)
+      (fun _ e => evDepth e) := by
+  intro env e τ ⟨ht, hi, he⟩ fuel hf
+  have hn := normalizeTree_inert env.funcs e hi (evDepth e) (Nat.le_refl _)
+  have hb : fuelBound (evDepth e) e = evDepth e := by simp [fuelBound]
+  have := total_of2 progress_preservation_partial8 ht hn he fuel (by rw [hb]; exact hf)
+  rw [hb] at this
+  exact this
+
+/-- **progress_preservation_total_partial8n**: all of stage 8 (patterns and enumerated declarations included); `n` is the
+normal form the normaliser returns at `f0` (per-expression), `ℬ` / `×` absent from it -/
+theorem progress_preservation_total_partial8n (env : Env) (e n : Ast) (τ : ExprTy) (f0 : Nat) (h : Typed8 env e τ)
+    (hn : normalizeTree env.funcs f0 e = some n) (he : matFree n = true) (fuel : Nat) (hf : fuelBound f0 n ≤ fuel) :
+    SoundTotal (evaluate fuel env e).1 τ ∧ evaluate fuel env e = evaluate (fuelBound f0 n) env e :=
+  total_of2 progress_preservation_partial8 h hn he fuel hf
+
+/-- **progress_preservation_total_partial7b**: expressions with calls (`Typed7`), `R{}` / `I{}` / filters allowed in the
+inlined form -/
+theorem progress_preservation_total_partial7b (env : Env) (e n : Ast) (τ : ExprTy) (f0 : Nat) (h : Typed7 env e τ)
+    (hn : normalizeTree env.funcs f0 e = some n) (he : matFree n = true) (fuel : Nat) (hf : fuelBound f0 n ≤ fuel) :
+    SoundTotal (evaluate fuel env e).1 τ ∧ evaluate fuel env e = evaluate (fuelBound f0 n) env e :=
+  total_of2 progress_preservation_partial7 h hn he fuel hf
+
+/-! non-vacuity.  `R{ξ:=0 | ξ<3 | ξ+1}` (not `eagerFree`): inert, `matFree`, depth 3, value 3 after 4 rounds;
+`I{ξ | ξ:∈X1; ξ∈D1}` over `X1 = {1,2,3}`, `D1 = {2,3,5}`: value `{2,3}`; the stage-4 conjunction `e5` (`R{}` in both forms and
+`I{}` with an assignment and a guard) is `Typed8`, inert and `matFree`. -/
+private def recEx : Ast := nd .NT_RECURSIVE_FULL [loc "ξ", lit 0, nd .LESSER [loc "ξ", lit 3], nd .PLUS [loc "ξ", lit 1]]
+private def envXD : Env := { globals := [("X1", .s [.e 1, .e 2, .e 3]), ("D1", .s [.e 2, .e 3, .e 5])] }
+private def impEx2 : Ast := nd .NT_IMPERATIVE_EXPR [loc "ξ", nd .ITERATE [loc "ξ", glob "X1"], nd .IN [loc "ξ", glob "D1"]]
+
+example : eagerFree recEx = false ∧ matFree recEx = true ∧ inert recEx = true ∧ normFuel recEx = 3 := by decide
+example : normalizeTree [] 3 recEx = some recEx := normalize_fuel_sufficient_partial [] recEx (by decide) 3 (by decide)
+example : evaluate 3 {} recEx = (.ok (.e 3), 4) := by decide
+example : ∀ fuel, 3 ≤ fuel → (evaluate fuel {} recEx).1 ≠ .outOfFuel := fun fuel hf =>
+  evaluate_fuel_sufficient_partial2 {} recEx recEx 3 (normalize_fuel_sufficient_partial _ _ (by decide) _ (by decide)) (by decide) fuel (by
+    have : fuelBound 3 recEx = 3 := by decide
+    omega)
+example : eagerFree impEx2 = false ∧ matFree impEx2 = true ∧ inert impEx2 = true ∧ normFuel impEx2 = 3 := by decide
+example : (evaluate 3 envXD impEx2).1 = .ok (.s [.e 2, .e 3]) := by decide
+example : ∀ fuel, 3 ≤ fuel → (evaluate fuel envXD impEx2).1 ≠ .outOfFuel := fun fuel hf =>
+  evaluate_fuel_sufficient_partial2 envXD impEx2 impEx2 3 (normalize_fuel_sufficient_partial _ _ (by decide) _ (by decide)) (by decide) fuel (by
+    have : fuelBound 3 impEx2 = 3 := by decide
+    omega)
+example : Typed8 Examples.env0 Examples.e5 .logic ∧ inert Examples.e5 = true ∧ matFree Examples.e5 = true :=
+  ⟨⟨[], _, by intro g τ h; simp [lookup] at h, (FragR.mono (by decide) Examples.e5_frag).toF (Nat.le_refl _), by
+      have : patsOf Examples.e5 = [] := by decide
+      rw [this]; intro xs h; cases h⟩, by decide, by decide⟩
+example : evDepth Examples.e5 = 10 := by decide
+example : (evaluate 10 Examples.env0 Examples.e5).1 = .okBool true := by decide
 
 end CCVerif.Eval
